@@ -2,6 +2,7 @@ package fio
 
 import (
 	"fmt"
+	"github.com/XiXi-2024/xixi-kv/vhook"
 	"github.com/edsrzf/mmap-go"
 	"io"
 	"os"
@@ -22,6 +23,7 @@ type MMap struct {
 }
 
 func NewMMap(fileName string) (*MMap, error) {
+	vhook.IO("open", fileName, -1, 1, nil)
 	fd, err := os.OpenFile(fileName, os.O_CREATE|os.O_RDWR, DataFilePerm)
 	if err != nil {
 		return nil, err
@@ -68,6 +70,10 @@ func (m *MMap) Read(b []byte, offset int64) (int, error) {
 }
 
 func (m *MMap) Write(b []byte) (int, error) {
+	if vhook.On {
+		vhook.IO("write", m.file.Name(), m.virtualSize, len(b), b)
+		defer vhook.IO("writeDone", m.file.Name(), m.virtualSize, len(b), nil)
+	}
 	if err := m.remap(m.virtualSize, len(b)); err != nil {
 		return 0, err
 	}
@@ -77,10 +83,18 @@ func (m *MMap) Write(b []byte) (int, error) {
 }
 
 func (m *MMap) Sync() error {
+	if vhook.On {
+		vhook.IO("sync", m.file.Name(), m.virtualSize, 0, nil)
+		defer vhook.IO("syncDone", m.file.Name(), m.virtualSize, 0, nil)
+	}
 	return m.activeMap.Flush()
 }
 
 func (m *MMap) Close() error {
+	if vhook.On {
+		vhook.IO("close", m.file.Name(), m.virtualSize, 0, nil)
+		defer vhook.IO("closeDone", m.file.Name(), m.virtualSize, 0, nil)
+	}
 	if err := m.activeMap.Flush(); err != nil {
 		return err
 	}
@@ -98,6 +112,7 @@ func (m *MMap) Size() (int64, error) {
 }
 
 func (m *MMap) ResetFileSize() error {
+	vhook.IO("truncate", m.file.Name(), m.virtualSize, 0, nil)
 	return m.file.Truncate(m.virtualSize)
 }
 
@@ -111,6 +126,7 @@ func (m *MMap) remap(newBase int64, dataSize int) error {
 	// 动态扩展 blockSize 的整数倍的长度
 	m.endOff = ((newBase + int64(dataSize) + blockSize - 1) / blockSize) * blockSize
 
+	vhook.IO("map", m.file.Name(), m.endOff, 0, nil)
 	// 如果新映射区域超过设置的文件大小, 则进行调整
 	if info, _ := m.file.Stat(); info.Size() < m.endOff {
 		if err := m.file.Truncate(m.endOff); err != nil {
